@@ -107,6 +107,25 @@ theorem link_sources_stay_valid (src : List Snap) (a : C.Args) (srcSub : List Sn
       exact ih s1 s' (fun x hx => hsub x (List.mem_cons_of_mem _ hx))
         (C15L.inv_copyEntry src a srcSub srcRel dstFinal s s1 e (hsub e (List.mem_cons_self ..)) h hstep) hs
 
+/-- … and along a whole call: any sequence of sources (wildcard matches), each with whatever destination path the
+call resolves for it, each with its landing rule, `MkdirAll` of the missing parents and all its entries. The states
+between the sources are exactly where F29 went wrong (a later source replaces a path an earlier one recorded). -/
+theorem link_sources_stay_valid_call (a : C.Args) (srcTree : List Snap) :
+    ∀ (srcs : List (Path × Path × Path)) (s s' : C.St), C15L.Inv (C15L.rootSnap :: srcTree) s →
+      srcs.foldlM (fun s sr => C.copyOne a srcTree sr.1 sr.2.1 sr.2.2 s) s = .ok s' → C15L.Inv (C15L.rootSnap :: srcTree) s' := by
+  intro srcs
+  induction srcs with
+  | nil => intro s s' h hs; simp [List.foldlM, pure, Except.pure] at hs; cases hs; exact h
+  | cons sr rest ih =>
+    intro s s' h hs
+    rw [List.foldlM_cons] at hs
+    cases hstep : C.copyOne a srcTree sr.1 sr.2.1 sr.2.2 s with
+    | error w => rw [hstep] at hs; simp [bind, Except.bind] at hs
+    | ok s1 =>
+      rw [hstep] at hs
+      simp only [bind, Except.bind] at hs
+      exact ih s1 s' (C15L.inv_copyOne a srcTree _ _ _ s s1 h hstep) hs
+
 /-- the invariant holds initially (nothing recorded yet) for every destination whose paths determine the content -/
 theorem link_sources_initially (src : List Snap) (t : List C.Node) (h : C15L.PathDet t) : C15L.Inv src { tree := t } :=
   ⟨h, by intro ip hip; cases hip⟩
